@@ -44,7 +44,7 @@ func (d Domain[E]) At(i int) E {
 // the empty string, strings that look like JSON, and strings contained in others.
 var (
 	IntDomain    = Domain[int]{"int", []int{0, 1, 2, 3, 4, 5, 6, 7, -1, 12, 1000000007, -9007199254740993}}
-	StringDomain = Domain[string]{"string", []string{"a", "b", "c", "ab", "1", "2", "", " ", "q\"x", "é<&>", " ", "b\\", "null", "[]", "a\":\"c", "\t\n"}}
+	StringDomain = Domain[string]{"string", []string{"a", "b", "c", "ab", "1", "2", "", " ", "q\"x", "é<&>", " ", "b\\", "null", "[]", "a\":\"c", "\t\n", "u\x1f4", "\x7f", "\x00", "\U000e0001"}}
 )
 
 // Apply runs op on the container.
